@@ -370,6 +370,10 @@ class CallMixin:
 
     def method_target(self, fi: FuncInfo):
         """what a (bound) method invokes: the raw function, or the result of its decorator chain"""
+        if self.has_real_decorators(fi) and f'{fi.qualname}@stack' in self.contracts:
+            # the decorated attribute as a whole is under an (assumed) contract of its own
+            return FuncInfo(qualname=f'{fi.qualname}@stack', name=fi.name, node=fi.node, module=fi.module, cls=fi.cls,
+                            kind=fi.kind, decorators=[])
         if self.has_real_decorators(fi):
             v = self.method_val(fi)
             so = self.static_of(v)
@@ -639,7 +643,13 @@ class CallMixin:
             fi, cframe, defaults = f, None, None
         ct = self.contracts.get(fi.qualname)
         if ct is not None and fi.qualname not in self.no_contract_for:
-            return self.apply_contract(ct, fi, args, kwargs, star, dstar, node)
+            extra_env = {}
+            for cn in (ct.extra.get('closure') or {}):
+                cv = cframe.lookup(cn) if cframe is not None else None
+                if cv is None:
+                    self.unsupported(f'closure variable {cn} of {fi.qualname} not bound at the call site', node)
+                extra_env[cn] = cv
+            return self.apply_contract(ct, fi, args, kwargs, star, dstar, node, extra_env)
         if self.depth >= INLINE_DEPTH:
             self.unsupported(f'inline depth exceeded at {fi.qualname}', node)
         fr = Frame(fi, fi.module, parent=cframe, cls=fi.cls)
